@@ -22,6 +22,7 @@ decided runs do not depend on the fuel (`C02_npda_fuel_monotone`, `C02_dpda_fuel
 import AutomataVerif.Proofs.PdaNpda
 import AutomataVerif.Proofs.PdaDpda
 import AutomataVerif.Proofs.PdaValidate
+import AutomataVerif.Proofs.PdaEps
 
 namespace AV.Props.C02
 open AV AV.PDA
@@ -36,6 +37,13 @@ run (`Generated/Pda.lean`), so an edit of `_has_accepted` breaks this theorem. -
 theorem C02_has_accepted_iff (M : Table σ α γ τ) (m : AccMode) (hm : M.mode = m.literal)
     (c : Config σ α γ) : M.hasAccepted c = true ↔ Accepting m M.finals c :=
   hasAccepted_iff M m hm c
+
+/-- The extractor recognised every statement of `_has_accepted` (no extra `if`, no unknown test,
+no `else`, final `return False`) and neither npda.py nor dpda.py overrides a helper the model
+takes from pda.py (`Generated/Pda.lean`, rewritten from the source on every run).  Without this
+obligation an unrecognised statement would become a rule that never fires and every other
+theorem would still check. -/
+theorem C02_has_accepted_shape : Gen.Pda.hasAcceptedShapeOk = true := by decide
 
 /-- The acceptance modes that validate are exactly the three literals. -/
 theorem C02_valid_modes (s : String) : s ∈ Gen.Pda.validModes ↔ ∃ m : AccMode, s = m.literal := by
@@ -199,6 +207,55 @@ theorem C02_npda_decides (M : NPDA σ α γ) (m : AccMode) (hm : M.mode = m.lite
   · obtain ⟨fuel, h⟩ := (C02_npda_reject_iff M m hm w).mpr ⟨hfin, hA⟩
     exact ⟨fuel, false, by simp [acceptsInput, readInput, h], by simp [hA]⟩
 
+/-! ## The quantifier's condition: "tables whose epsilon-moves cannot run forever"
+
+`EpsTerminates Δ` (Spec/PDA.lean): the converse of the λ-move relation of the table is well
+founded — no configuration whatever starts an infinite sequence of λ-moves.  It is a condition on
+the table; the per-word hypothesis `hfin` of `C02_npda_decides` / the first conjunct of
+`C02_npda_reject_iff` follow from it for every word. -/
+
+/-- **If the ε-moves of the table cannot run forever, then on every word all runs die out**: some
+level of the run tree is empty.  (Finite branching: `_get_next_configurations` returns a finite
+set; a move that is not a λ-move consumes an input symbol.) -/
+theorem C02_no_eps_run_dies_out (M : NPDA σ α γ) (h : EpsTerminates M.moves) (w : List α) :
+    ∃ k, ∀ c, ¬ StepN M.moves k (M.start w) c :=
+  M.dies_out h (M.start w)
+
+/-- The same for a DPDA table. -/
+theorem C02_dpda_no_eps_run_dies_out (M : DPDA σ α γ) (h : EpsTerminates M.moves) (w : List α) :
+    ∃ k, ∀ c, ¬ StepN M.moves k (M.start w) c :=
+  M.dies_out h (M.start w)
+
+/-- The per-word hypothesis `hfin` of `C02_npda_decides` / first conjunct of `C02_npda_reject_iff` is
+*exactly* "ε-moves cannot run forever" on the run tree of that word: all runs on `w` die out iff no
+configuration reachable from the start configuration starts an infinite sequence of λ-moves
+(NPDA and DPDA tables).  `C02_no_eps_run_dies_out` is the special case where the condition
+holds for all configurations, i.e. for the table. -/
+theorem C02_dies_out_iff_eps_terminates_on_run :
+    (∀ (M : NPDA σ α γ) (w : List α), (∃ k, ∀ c, ¬ StepN M.moves k (M.start w) c) ↔
+      ∀ k c, StepN M.moves k (M.start w) c → Acc (fun c' c => EpsStep M.moves c c') c) ∧
+    (∀ (M : DPDA σ α γ) (w : List α), (∃ k, ∀ c, ¬ StepN M.moves k (M.start w) c) ↔
+      ∀ k c, StepN M.moves k (M.start w) c → Acc (fun c' c => EpsStep M.moves c c') c) :=
+  ⟨fun M w => M.dies_out_iff (M.start w), fun M w => M.dies_out_iff (M.start w)⟩
+
+/-- `C02_npda_decides` with the quantifier's own condition: on a table whose ε-moves cannot run
+forever the reader decides every word, and says `True` iff an accepting configuration is
+reachable. -/
+theorem C02_npda_decides_eps (M : NPDA σ α γ) (m : AccMode) (hm : M.mode = m.literal)
+    (h : EpsTerminates M.moves) (w : List α) :
+    ∃ fuel b, acceptsInput (M.readStepwise fuel w) = some (.ok b) ∧
+      (b = true ↔ ∃ k c, StepN M.moves k (M.start w) c ∧ Accepting m M.finals c) :=
+  C02_npda_decides M m hm w (C02_no_eps_run_dies_out M h w)
+
+/-- `C02_npda_reject_iff` with the quantifier's own condition: the reader rejects exactly when no
+accepting configuration is reachable. -/
+theorem C02_npda_reject_iff_eps (M : NPDA σ α γ) (m : AccMode) (hm : M.mode = m.literal)
+    (h : EpsTerminates M.moves) (w : List α) :
+    (∃ fuel, (M.readStepwise fuel w).2 = .raised (.lib .rejectionException)) ↔
+      ¬ ∃ k c, StepN M.moves k (M.start w) c ∧ Accepting m M.finals c := by
+  rw [C02_npda_reject_iff M m hm w]
+  exact ⟨fun h' => h'.2, fun h' => ⟨C02_no_eps_run_dies_out M h w, h'⟩⟩
+
 /-- `accepts_input` / `read_input` of an NPDA: True with the last yielded set when the reader
 returns, False / `RejectionException` when it raises, and never another exception. -/
 theorem C02_npda_accepts_input (M : NPDA σ α γ) (fuel : Nat) (w : List α) :
@@ -276,6 +333,22 @@ theorem C02_dpda_nondeterminism_error_sound (M : DPDA σ α γ) (hk : M.KeysUniq
   apply Classical.byContradiction
   intro hno
   exact M.validate_nondeterminism_rows hk h ((M.detRows_iff hk).mpr hno)
+
+/-- A table that offers two moves to some configuration is refused by the DPDA constructor
+(whatever else is wrong with it). -/
+theorem C02_dpda_two_moves_rejected (M : DPDA σ α γ) (hk : M.KeysUnique) (h : M.TwoMoves) :
+    M.validate ≠ .ok () :=
+  fun hv => ((C02_dpda_validate_iff M hk).mp hv).2 h
+
+/-- The move relations and `TwoMoves` of `Spec/PDA.lean` are written through the table lookup
+`Table.entry?`; stated by membership only (`movesMem`, `TwoMovesMem`: an item of `transitions`, an
+item of the row, an item of the innermost dict) they are the same relations as soon as dict keys
+are unique — which they are in every Python dict. -/
+theorem C02_moves_by_membership :
+    (∀ (M : NPDA σ α γ), M.KeysUniqueAll → ∀ q a X p push, M.moves q a X p push ↔ M.movesMem q a X p push) ∧
+    (∀ (M : DPDA σ α γ), M.KeysUniqueAll → ∀ q a X p push, M.moves q a X p push ↔ M.movesMem q a X p push) ∧
+    (∀ (M : DPDA σ α γ), M.KeysUnique → (M.TwoMoves ↔ M.TwoMovesMem)) :=
+  ⟨fun M hk => M.moves_iff_movesMem hk, fun M hk => M.moves_iff_movesMem hk, fun M hk => M.twoMoves_iff_mem hk⟩
 
 /-! ## DPDA reader -/
 
@@ -489,6 +562,55 @@ theorem C02_dpda_valid_eq_npda (M : DPDA σ α γ) (hk : M.KeysUnique) (hv : M.v
   obtain ⟨m, hm⟩ := wf.modeOk
   exact ⟨C02_lift_valid M wf, C02_dpda_eq_npda M hdet m hm pick w⟩
 
+/-- A deterministic DPDA whose ε-moves cannot run forever decides every word, and says `True` iff
+an accepting configuration is reachable. -/
+theorem C02_dpda_decides_eps (M : DPDA σ α γ) (hdet : ¬ M.TwoMoves) (m : AccMode) (hm : M.mode = m.literal)
+    (h : EpsTerminates M.moves) (pick : Config σ α γ → Bool) (w : List α) :
+    ∃ fuel b, acceptsInput (M.readStepwise pick fuel w) = some (.ok b) ∧
+      (b = true ↔ ∃ k c, StepN M.moves k (M.start w) c ∧ Accepting m M.finals c) := by
+  by_cases hA : ∃ k c, StepN M.moves k (M.start w) c ∧ Accepting m M.finals c
+  · obtain ⟨fuel, hf⟩ := (C02_dpda_accept_iff M hdet m hm pick w).mpr hA
+    exact ⟨fuel, true, (C02_dpda_accepts_input M pick fuel w).1.mpr hf, by simp [hA]⟩
+  · obtain ⟨fuel, hf⟩ := (C02_dpda_reject_iff M hdet m hm pick w).mpr
+      ⟨C02_dpda_no_eps_run_dies_out M h w, hA⟩
+    exact ⟨fuel, false, (C02_dpda_accepts_input M pick fuel w).2.1.mpr hf, by simp [hA]⟩
+
+/-- **C02 for the tables of its quantifier** — a DPDA definition the constructor accepts, whose
+ε-moves cannot run forever: the NPDA with the same table is accepted by its constructor, and on
+every word both `accepts_input` calls come back (some budget suffices for both), with the same
+Boolean, which is `True` exactly when some sequence of moves consumes the word and ends in an
+accepting configuration (the start configuration included). -/
+theorem C02_valid_eps_terminating (M : DPDA σ α γ) (hk : M.KeysUnique) (hv : M.validate = .ok ())
+    (h : EpsTerminates M.moves) (pick : Config σ α γ → Bool) (w : List α) :
+    M.lift.validate = .ok () ∧ ∃ m : AccMode, M.mode = m.literal ∧ ∃ fuel b,
+      acceptsInput (M.readStepwise pick fuel w) = some (.ok b) ∧
+      acceptsInput (M.lift.readStepwise fuel w) = some (.ok b) ∧
+      (b = true ↔ ∃ k c, StepN M.moves k (M.start w) c ∧ Accepting m M.finals c) := by
+  obtain ⟨wf, hdet⟩ := (C02_dpda_validate_iff M hk).mp hv
+  obtain ⟨m, hm⟩ := wf.modeOk
+  refine ⟨C02_lift_valid M wf, m, hm, ?_⟩
+  obtain ⟨f1, b1, h1, hb1⟩ := C02_dpda_decides_eps M hdet m hm h pick w
+  have hL : EpsTerminates M.lift.moves := by rw [M.lift_moves_eq]; exact h
+  obtain ⟨f2, b2, h2, hb2⟩ := C02_npda_decides_eps M.lift m hm hL w
+  have hb : b2 = b1 := by
+    have e : (b2 = true) ↔ (b1 = true) := by
+      rw [hb1, hb2]
+      simp only [DPDA.lift_stepN]
+      rfl
+    cases b1 <;> cases b2 <;> simp_all
+  subst hb
+  have hd1 : (M.readStepwise pick f1 w).2 ≠ .outOfFuel := by
+    intro hh
+    have := (C02_dpda_accepts_input M pick f1 w).2.2.1.mpr hh
+    rw [this] at h1; cases h1
+  have hd2 : (M.lift.readStepwise f2 w).2 ≠ .outOfFuel := by
+    intro hh
+    have := (C02_npda_accepts_input M.lift f2 w).2.2.1.mpr hh
+    rw [this] at h2; cases h2
+  refine ⟨max f1 f2, b2, ?_, ?_, hb1⟩
+  · rw [C02_dpda_fuel_monotone M pick f1 (max f1 f2) w hd1 (Nat.le_max_left _ _)]; exact h1
+  · rw [C02_npda_fuel_monotone M.lift f2 (max f1 f2) w hd2 (Nat.le_max_right _ _)]; exact h2
+
 /-! ## Non-vacuity: concrete machines (states, symbols, stack symbols are naturals) -/
 
 section Examples
@@ -515,6 +637,15 @@ example : ∃ k, ∀ c, ¬ StepN exN.moves k (exN.start [0, 0]) c := by
   have := he.mp (by decide)
   exact ⟨_, fun c hc => this.2 ⟨c, hc⟩⟩
 
+/-- `exN`'s λ-moves all pop: they cannot run forever, so `C02_npda_decides_eps` applies to it
+(and `exLoop` above is a table outside the quantifier). -/
+theorem exN_eps : EpsTerminates exN.moves :=
+  exN.epsTerminates_of_lambda_pops (by decide)
+
+example (w : List Nat) : ∃ fuel b, acceptsInput (exN.readStepwise fuel w) = some (.ok b) ∧
+    (b = true ↔ ∃ k c, StepN exN.moves k (exN.start w) c ∧ Accepting .emptyStack exN.finals c) :=
+  C02_npda_decides_eps exN .emptyStack (by decide) exN_eps w
+
 /-- a λ-cycle `q0 —λ,Z→ (q0, ZZ)`: the reader never decides; the model says so -/
 def exLoop : NPDA Nat Nat Nat :=
   { states := [0], inputSyms := [0], stackSyms := [0],
@@ -539,6 +670,31 @@ example : (exD.readStepwise (fun _ => true) 10 [0, 0, 1, 1]).2 = .returned ∧
     (exD.readStepwise (fun _ => true) 10 [0, 1, 1]).2 = .raised (.lib .rejectionException) ∧
     (exD.lift.readStepwise 10 [0, 1, 1]).2 = .raised (.lib .rejectionException) := by decide
 
+/-- `exD`'s only λ-move goes from `q2` to `q3`, which has no row: ε-moves cannot run forever. -/
+theorem exD_eps : EpsTerminates exD.moves := by
+  apply epsTerminates_of_measure (fun c => if c.state = 3 then 0 else 1)
+  intro c c' hs
+  cases hs with
+  | mk hm =>
+    obtain ⟨row, sp, h1, h2, h3⟩ := exD.entry?_some_mem hm
+    simp only [exD, List.mem_cons, Prod.mk.injEq, List.not_mem_nil, or_false] at h1
+    rcases h1 with ⟨rfl, rfl⟩ | ⟨rfl, rfl⟩ | ⟨rfl, rfl⟩
+    · simp at h2
+    · simp at h2
+    · simp only [List.mem_cons, Prod.mk.injEq, List.not_mem_nil, or_false, reduceCtorEq, false_and,
+        false_or, true_and] at h2
+      subst h2
+      simp only [List.mem_cons, Prod.mk.injEq, List.not_mem_nil, or_false] at h3
+      obtain ⟨_, rfl, _⟩ := h3
+      simp
+
+/-- the property for the docstring DPDA, all words -/
+example (w : List Nat) := C02_valid_eps_terminating exD exD_keys (by rfl) exD_eps (fun _ => true) w
+theorem exD_keys_all : exD.KeysUniqueAll := ⟨exD_keys, by decide⟩
+example : exD.moves 2 none 0 3 [0] ∧ exD.movesMem 2 none 0 3 [0] := by
+  have h : exD.moves 2 none 0 3 [0] := by show exD.entry? 2 none 0 = some (3, [0]); decide
+  exact ⟨h, ((C02_moves_by_membership (σ := Nat) (α := Nat) (γ := Nat)).2.1 exD exD_keys_all ..).mp h⟩
+
 /-- F7: `q0` final, only row `q0 —λ,Z→ (q1, Z)`.  The start configuration accepts `""`; the
 DPDA reader returns immediately, like the NPDA (before the fix it moved to `q1` and rejected). -/
 def exF7 : DPDA Nat Nat Nat :=
@@ -559,6 +715,8 @@ def exTwo : DPDA Nat Nat Nat :=
 example : exTwo.validate = .error (.lib .nondeterminismError) ∧ exTwo.KeysUnique :=
   ⟨by rfl, by unfold Table.KeysUnique; decide⟩
 example : exTwo.TwoMoves := ⟨0, 0, 0, by decide, by decide⟩
+example : exTwo.validate ≠ .ok () :=
+  C02_dpda_two_moves_rejected exTwo (by unfold Table.KeysUnique; decide) ⟨0, 0, 0, by decide, by decide⟩
 /-- there the popped transition matters: the two set orders give different runs -/
 example : exTwo.readStepwise (fun _ => true) 3 [0] ≠ exTwo.readStepwise (fun _ => false) 3 [0] := by decide
 
